@@ -111,6 +111,11 @@ def _run(k, uid, prog, proc):
             k.fault_fired('in_task_signal_%d' % ins[1])
             k.post_signal(proc, ins[1], 'in-task')
             k.yield_('after-signal')
+        elif op == 'ignore_term':
+            # a task (or a library it uses) that makes its process deaf to the termination signal
+            import billiard.pool as P
+            P.signal.signal(_signal.SIGTERM, _signal.SIG_IGN)
+            k.record('task-ignores-term', uid)
         elif op == 'unpicklable':
             return Unpicklable(uid)
         elif op == 'nested_unpicklable':
